@@ -46,6 +46,13 @@ for name, patch, expect in items:
         row["results"][cid] = {"rc": p.returncode, "signatures": sorted(set(sig)), "wall_s": round(time.time() - t0, 1)}
         if p.returncode == 1 and "VIOLATION property=" in out:
             caught = True
+            # keep the (shrunk) failing case: a candidate regress case that pins this detection down
+            m = re.search(r"VIOLATION property=\S+ replay=(\S+\.json)", out)
+            if m and os.path.exists(m.group(1)) and "regress" not in os.path.basename(m.group(1)):
+                hd = os.path.join(ROOT, "sensitivity", "harvest", cid)
+                os.makedirs(hd, exist_ok=True)
+                import shutil
+                shutil.copy(m.group(1), os.path.join(hd, "seed-" + name.replace("/", "-") + ".json"))
             break
     row["status"] = "caught" if caught else "MISSED"
     rows.append(row); print(name, row["status"], json.dumps(row["results"]), flush=True)
